@@ -380,14 +380,14 @@ class Template:
                         _compile_module_file(
                             self, data, filename, path, self.module_writer
                         )
-                module = compat.load_module(self.module_id, path)
+                module = self._load_module_file(path, filename)
                 if module._magic_number != codegen.MAGIC_NUMBER:
                     data = util.read_file(filename)
                     with _drop_expression_warnings():
                         _compile_module_file(
                             self, data, filename, path, self.module_writer
                         )
-                    module = compat.load_module(self.module_id, path)
+                    module = self._load_module_file(path, filename)
 
             ModuleInfo(module, path, self, filename, None, None, None)
         else:
@@ -399,6 +399,19 @@ class Template:
             self._code = code
             ModuleInfo(module, None, self, filename, code, None, None)
         return module
+
+    def _load_module_file(self, path, filename):
+        try:
+            return compat.load_module(self.module_id, path)
+        except SyntaxError as error:
+            if error.filename != path:
+                raise
+            _, text = Lexer("", filename).decode_raw_stream(
+                util.read_file(filename), True, self.input_encoding, filename
+            )
+            raise _module_syntax_error(
+                error, util.read_python_file(path), text, filename
+            ) from error
 
     @property
     def source(self):
@@ -804,6 +817,30 @@ def _translate_module_warnings(get_source, module_id, filename):
     return _show_warnings_as(_locate)
 
 
+def _module_syntax_error(error, module_source, template_text, filename):
+    """a fault that only the compilation of the generated module finds
+    (``return`` in a module-level block, a control block that straddles a
+    tag), as a Mako exception at the template line the module line maps to.
+
+    """
+    lineno = 0
+    try:
+        line_map = ModuleInfo.get_module_source_metadata(
+            module_source, full_line_map=True
+        )["full_line_map"]
+        if error.lineno and error.lineno <= len(line_map):
+            lineno = line_map[error.lineno - 1]
+    except (KeyError, ValueError, AttributeError):
+        pass
+    return exceptions.SyntaxException(
+        "(%s) %s" % (type(error).__name__, error.msg),
+        template_text,
+        lineno,
+        0,
+        filename,
+    )
+
+
 def _compile_text(template, text, filename):
     identifier = template.module_id
 
@@ -822,7 +859,12 @@ def _compile_text(template, text, filename):
     with _translate_module_warnings(
         lambda: source, cid, filename or template.uri
     ):
-        code = compile(source, cid, "exec")
+        try:
+            code = compile(source, cid, "exec")
+        except SyntaxError as error:
+            raise _module_syntax_error(
+                error, source, lexer.text, filename
+            ) from error
 
         # the module body, which is the code of any <%! %> blocks, is
         # executed within the same block, so that a warning it raises is
